@@ -40,6 +40,8 @@ pub struct Ctx {
     samples: Mutex<Vec<Value>>,
     notes: Mutex<Vec<String>>,
     pub replay: Option<PathBuf>,
+    /// replay by filtered re-run: only violations whose case has these (key, value) pairs are kept
+    replay_filter: Mutex<Option<Vec<(String, Value)>>>,
 }
 
 fn fnv(s: &str) -> u64 {
@@ -70,6 +72,7 @@ impl Ctx {
             samples: Mutex::new(vec![]),
             notes: Mutex::new(vec![]),
             replay: None,
+            replay_filter: Mutex::new(None),
         }
     }
 
@@ -100,7 +103,23 @@ impl Ctx {
         self.notes.lock().unwrap().push(s.to_string());
     }
 
+    /// Replay by re-running the (cheap) exploration and keeping only the violations of the stored
+    /// case: those whose case agrees with `case` on every one of `keys`.
+    pub fn replay_only(&self, keys: &[&str], case: &Value) {
+        *self.replay_filter.lock().unwrap() = Some(keys.iter().map(|k| (k.to_string(), case.get(*k).cloned().unwrap_or(Value::Null))).collect());
+    }
+
+    fn filtered_out(&self, case: &Value) -> bool {
+        match &*self.replay_filter.lock().unwrap() {
+            None => false,
+            Some(f) => f.iter().any(|(k, v)| case.get(k).cloned().unwrap_or(Value::Null) != *v),
+        }
+    }
+
     pub fn violation(&self, key: &str, summary: &str, case: Value) {
+        if self.filtered_out(&case) {
+            return;
+        }
         let mut v = self.violations.lock().unwrap();
         if v.len() < 100_000 {
             v.push(Violation {
